@@ -40,10 +40,13 @@ def run(ctx):
         be = str(rng.choice(['fastcore', 'fastcore', 'igraph', 'nx']))
         ctx.count('backend:' + be)
         with F.backend(be):
-            soma_mode = str(rng.choice(['none', 'fixed']))
+            soma_mode = str(rng.choice(['none', 'fixed', 'list']))
             x = F.mk_neuron(f, soma=None)
             if soma_mode == 'fixed':
                 x.soma = int(f['ids'][int(rng.integers(len(f['ids'])))])
+            elif soma_mode == 'list' and len(f['ids']) >= 2:      # several somata: a fixed list of node ids
+                # (the public setter only takes one id; lists of ids are what resample_skeleton pins when several somata are detected by radius)
+                x._soma = [int(v) for v in rng.choice(f['ids'], size=min(len(f['ids']), int(rng.integers(2, 4))), replace=False)]
             hist = []
             steps.append(dict(desc=dict(start=f, backend=be, history=[]), neuron_rows=F.table_of(x), model=None, op='construct',
                               nontrivial=F.nontrivial(f), missing=F.has_missing(x), soma_ok=soma_ok(x)))
